@@ -9,6 +9,7 @@ pub struct VerifTrue;
 impl Matcher for VerifTrue { fn matches(&self, _: &WalkEntry, _: &mut MatcherIO) -> bool { true } }
 
 // @harness props=C01 tier=quick cost=30
+// @replay quit_no_action
 // @exec has_side_effects of Printer, DeleteMatcher, PruneMatcher, QuitMatcher, TrueMatcher, FalseMatcher, Printf, Single/MultiExecMatcher, TypeMatcher-like tests
 // @sym which primary (index)
 // @bounds one primary
@@ -67,6 +68,7 @@ fn nac_rec<M: Matcher>(_b: &mut AndMatcherBuilder, m: M) {
 fn build_rec(b: AndMatcherBuilder) -> Box<dyn Matcher> { unsafe { BT_BUILT += 1; } std::mem::forget(b); Box::new(VerifTrue) }
 
 // @harness props=C01 tier=quick cost=30 flags=nomem
+// @replay quit_no_action
 // @exec build_top_level_matcher (the "no action => add -print" decision), Matcher::has_side_effects of the parsed expression
 // @sym whether the parsed expression contains an action
 // @bounds build_matcher_tree replaced by a script returning an arbitrary expression; AndMatcherBuilder::{new_and_condition,build} replaced by recorders (their semantics: c01_and_builder)
